@@ -63,7 +63,7 @@ def stepLine (st : St) (line : String) : St × String :=
         | (s1, r) => ({ st with s := s1 }, fmt s1 (resStr r))
       else
       let isMap := kind == "m"
-      let (s1, r) := step st.s (if isMap then .subMapValidate ch len else if kind == "s" then .subPoll ch
+      let (s1, r) := step st.s (if isMap then .subMapValidate ch len else if kind == "s" then .subPoll ch len
         else .subReg ch len)
       match r with
       | .ok g =>
